@@ -17,6 +17,15 @@ RULE = ("downsample: EVERY (n, N) with 1 <= N <= n+2, n <= 400 (quick) / 700 (th
 
 SLACK = Fraction(1, 2 ** 40)
 
+# every evo function the model Evo.Select mirrors (drift sentinel, see core.drift)
+MODELLED = ["evo/core/trajectory.py:PosePath3D.reduce_to_ids", "evo/core/trajectory.py:PoseTrajectory3D.reduce_to_ids",
+            "evo/core/trajectory.py:PosePath3D.downsample", "evo/core/trajectory.py:PosePath3D.motion_filter",
+            "evo/core/filters.py:filter_by_motion", "evo/core/trajectory.py:PoseTrajectory3D.reduce_to_time_range",
+            "evo/core/trajectory.py:PosePath3D._jumps", "evo/core/trajectory.py:PosePath3D.split_distance_gaps",
+            "evo/core/trajectory.py:PoseTrajectory3D.split_time_gaps", "evo/core/trajectory.py:PoseTrajectory3D.split_distance_gaps",
+            "evo/core/trajectory.py:PoseTrajectory3D.split_speed_outliers", "evo/core/trajectory.py:PoseTrajectory3D.speeds",
+            "evo/core/trajectory.py:calc_speed", "evo/core/geometry.py:accumulated_distances", "evo/core/trajectory.py:merge"]
+
 # ----------------------------------------------------------------------------- geometry helpers (harness side, exact)
 STEPS = [(3, 4, 0), (0, 3, 4), (4, 0, 3), (5, 12, 0), (1, 2, 2), (2, 3, 6), (0, 0, 1), (1, 0, 0), (0, 0, 0),
          (-3, -4, 0), (0, -5, 12), (-2, 6, -3), (8, 9, 12), (0, 0, 0)]
@@ -989,6 +998,7 @@ def shrink(case):
 
 def check(ctx):
     lean = core.lean_side(ctx.prop, ctx.tier)
+    core.drift(ctx, MODELLED)
     cases = list(gen_cases(ctx))
     evaluate(ctx, cases)
     core.shrink_all(ctx, shrink, evaluate)
